@@ -116,9 +116,15 @@ def cases(draw, tier):
         min_size=nk, max_size=nk, unique=True))
     comment = {}
     for k in keys:
-        val = draw(st.text(string.ascii_letters + string.digits
-                           + " :,;#-_./()[]'\"!?@%&*+=<>", min_size=1,
-                           max_size=40)).strip()
+        val = draw(st.one_of(
+            st.text(string.ascii_letters + string.digits
+                    + " :,;#-_./()[]'\"!?@%&*+=<>", min_size=1, max_size=40),
+            # quoting and separators as a csv parser would read them
+            st.sampled_from(['upstream: 410730,"Cotter at Gingera', 'a,"b',
+                             '"', '""', 'x,"y",z', "it's, 'quoted", '",',
+                             'tab\there', 'a,b,c,d,e,f,g,h', ',', '#,"#',
+                             '5" pipe', "O'Neil,\"x", 'back\\slash,"q']),
+        )).strip()
         if not val or "-" * 10 in val:
             val = "c:" + val.replace("-", "")
         comment[k] = val
